@@ -1,5 +1,6 @@
 """property id -> harness modules (each exposes cases(tier) -> [Case])"""
 REGISTRY = {
+    "C19": {"modules": ["harness.C19_sliding"], "uncovered": ["window_sample='random'", "callable / changepoint function kernels", "position_velocity and gaussian_weight kernels", "index lists that are not strictly increasing (a full-length list is ignored by sliding_windows: `sample.shape[0] < width`)"]},
     "C09": {"modules": ["harness.C09_bpe"], "uncovered": []},
     "C03": {"modules": ["harness.C03_cooc"], "uncovered": []},
     "C04": {"modules": ["harness.C04_accumulator"], "uncovered": []},
